@@ -271,7 +271,10 @@ def runConv (m : Mem) (h : HV) : Conv → Option HV
       else none
   | .toDyn =>
       -- `Arc::into_raw`, `as *const dyn Tr`, `Arc::from_raw`
-      if h.kind = .arc ∧ h.ty = .sized then some (Arc.from_raw m { Arc.into_raw m h with ty := .dyn }) else none
+      if h.kind = .arc ∧ h.ty = .sized then some (Arc.from_raw m { Arc.into_raw m h with ty := .dyn })
+      -- the unsizing coercion `UniqueArc<T>` → `UniqueArc<dyn Tr>`: same pointer, a vtable is attached
+      else if h.kind = .uniq ∧ h.ty = .sized then some { h with ty := .dyn }
+      else none
 
 /-! ## reading and writing the payload -/
 
@@ -318,6 +321,7 @@ inductive CbAct
   | cloneArcTo (k : Nat)  -- (rawOffset only) `o.clone_arc()` into slot `k`
   | getMutWrite (v : Nat) -- (thinWithArcMut) `Arc::get_mut(arc)`, write `v` if granted
   | replaceWith (k : Nat) -- (thinWithArcMut) `*arc = Arc::protected_from_thin(<thin taken from slot k>)`
+  | swapWith (k : Nat)    -- (thinWithArcMut) `mem::swap(arc, &mut spare)`, `spare` made from / returned to slot `k`
   | panic
 deriving Repr, Inhabited
 
@@ -335,7 +339,7 @@ def transientOf (m : Mem) (api : CbApi) (h : HV) : Option HV :=
 /-- interpreter of a callback script.  `src` is the slot that lends; `t` the transient handle.
 For `with_arc_mut` the drop guard writes the transient's pointer back into the ThinArc when the
 callback returns *or unwinds*; nothing can observe the ThinArc in between (it is mutably
-borrowed), so the write-back is modelled at the `replaceWith` itself. -/
+borrowed), so the write-back is modelled at the `replaceWith` / `swapWith` itself. -/
 def runCb (api : CbApi) (src : Nat) : List CbAct → State → HV → String → State × Out
   | [], s, _, acc => (s, ok acc)
   | a :: rest, s, t, acc =>
@@ -377,6 +381,20 @@ def runCb (api : CbApi) (src : Nat) : List CbAct → State → HV → String →
               let m := Arc.drop s.mem t
               let s := (s.del m k).set m src (ThinArc.of_arc newT)
               runCb api src rest s newT (acc ++ "replaced;")
+            else runCb api src rest s t (acc ++ "skip;")
+          | none => runCb api src rest s t (acc ++ "skip;")
+        else runCb api src rest s t (acc ++ "skip;")
+    | .swapWith k =>
+        if api = .thinWithArcMut ∧ k ≠ src then
+          match lookup s k with
+          | some h2 =>
+            if h2.kind = .thin then
+              -- `spare = Arc::protected_from_thin(<thin taken out of slot k>)`, `mem::swap(arc, &mut spare)`,
+              -- then `protected_into_thin(spare)` goes back into slot `k`: no count changes, nothing is
+              -- dropped; the write-back guard leaves the lending ThinArc pointing at `k`'s old block
+              let newT := ThinArc.thick s.mem h2
+              let s := (s.set s.mem k (ThinArc.of_arc t)).set s.mem src (ThinArc.of_arc newT)
+              runCb api src rest s newT (acc ++ "swapped;")
             else runCb api src rest s t (acc ++ "skip;")
           | none => runCb api src rest s t (acc ++ "skip;")
         else runCb api src rest s t (acc ++ "skip;")
